@@ -30,6 +30,9 @@ pub const F_SPACESKIP: &str = "C12-spaceskip-ignores-space-factor";
 // text -> horizontal list
 
 struct TextSetup {
+    /// a paragraph typeset with the same preprocessor before the one under test (TeX §1091: every
+    /// paragraph starts with space factor 1000, whatever the previous one ended with)
+    primer: Option<String>,
     text: String,
     sf_codes: [i32; 256],
     space_skip: common::Glue,
@@ -50,6 +53,7 @@ impl TextSetup {
             (0..256).filter(|&c| self.sf_codes[c] != plain[c]).map(|c| json!([c, self.sf_codes[c]])).collect();
         json!({
             "text": self.text,
+            "previous_paragraph": self.primer,
             "spaceskip": glue_to_spec(&self.space_skip).render(),
             "xspaceskip": glue_to_spec(&self.xspace_skip).render(),
             "sfcodes_changed_from_plain": changed,
@@ -61,6 +65,10 @@ impl TextSetup {
 fn real_add_text(ctx: &Ctx, ts: &TextSetup, obs: &mut Obs) -> Option<Vec<ds::Horizontal>> {
     let r = catch(|| {
         let mut tp = new_preprocessor(ctx, ts.params());
+        if let Some(p) = &ts.primer {
+            let mut other = vec![];
+            tp.add_text(p, &mut other);
+        }
         let mut list = vec![];
         tp.add_text(&ts.text, &mut list);
         list
@@ -546,13 +554,20 @@ fn run_break<F: boxworks::FontRepo>(
                 "tex": render_lines(&tex_items),
                 "conservation_problems": cons.problems.iter().map(|(s, d)| format!("{s}: {d}")).collect::<Vec<_>>(),
                 "nodes_879_deletes": would_prune,
+                "open_finding_model_no_879": render_lines(&dev_items),
             }),
         );
         if !strict && trigger && dev_items == real_items {
             obs.known(F_KEPT, d);
             obs.add("known_kept_discardables", would_prune as u64);
         } else {
-            let sig = cons.problems.first().map(|p| p.0).unwrap_or("content");
+            // With the open finding's trigger present the conservation problems are a mix of the
+            // finding and whatever else happened: name the case by what it is.
+            let sig = if !strict && trigger {
+                "differs-from-tex-and-from-the-open-finding-model"
+            } else {
+                cons.problems.first().map(|p| p.0).unwrap_or("content")
+            };
             obs.violation(format!("lines:{sig}"), d);
         }
         out.failed = true;
@@ -580,7 +595,8 @@ fn text_case(rng: &mut Rng, obs: &mut Obs, fixed: Option<(TextSetup, BreakSetup)
             let max_words = if obs.tier == Tier::Thorough { 120 } else { 70 };
             let text = gen::text(rng, max_words);
             let (sf_codes, space_skip, xspace_skip) = gen::text_params(rng);
-            let ts = TextSetup { text, sf_codes, space_skip, xspace_skip };
+            let primer = if rng.chance(1, 3) { Some(format!("{}{}", gen::word(rng), *rng.pick(&[".", "!", ":", ",", "A", ")", ""]))) } else { None };
+            let ts = TextSetup { primer, text, sf_codes, space_skip, xspace_skip };
             let narrow = rng.chance(1, 3);
             let bs = BreakSetup {
                 kp: gen::kp_params(rng),
@@ -684,7 +700,7 @@ fn sf_enum_case(idx: u64, obs: &mut Obs) {
     } else {
         common::Glue::ZERO
     };
-    let ts = TextSetup { text: format!("{word} x"), sf_codes: model::plain_sf_codes(), space_skip: ss, xspace_skip: xs };
+    let ts = TextSetup { primer: if idx % 3 == 0 { Some("A.".into()) } else if idx % 3 == 1 { Some("a.".into()) } else { None }, text: format!("{word} x"), sf_codes: model::plain_sf_codes(), space_skip: ss, xspace_skip: xs };
     let Some(list) = real_add_text(&ctx, &ts, obs) else { return };
     check_text_list(&ctx, &ts, &list_to_m(&list), obs, false);
     obs.count("sf_enum_checked");
@@ -776,6 +792,7 @@ fn known_case(idx: u64, rng: &mut Rng, obs: &mut Obs) {
         }
         1 => {
             let ts = TextSetup {
+                primer: None,
                 text: "a, b. c".into(),
                 sf_codes: model::plain_sf_codes(),
                 space_skip: common::Glue { width: pt(10), stretch: pt(4), shrink: pt(2), ..common::Glue::ZERO },
@@ -788,16 +805,15 @@ fn known_case(idx: u64, rng: &mut Rng, obs: &mut Obs) {
             // an explicit kern break: the glue that makes the kern a legal breakpoint is always
             // the first node of the next line
             let mut l: Vec<ds::Horizontal> = vec![];
-            for c in ['a', 'a', 'a', 'a'] {
-                l.push(ds::Char { char: c, font: 0 }.into());
+            for _ in 0..6 {
+                l.push(ds::Char { char: 'a', font: 0 }.into());
             }
-            l.push(ds::Penalty(-10000).into());
-            l.push(ds::Glue { kind: ds::GlueKind::Normal, value: common::Glue { width: pt(3), ..common::Glue::ZERO } }.into());
             l.push(ds::Kern { width: pt(1), kind: ds::KernKind::Explicit }.into());
-            for c in ['f', 'f'] {
-                l.push(ds::Char { char: c, font: 0 }.into());
+            l.push(ds::Glue { kind: ds::GlueKind::Normal, value: common::Glue { width: pt(3), ..common::Glue::ZERO } }.into());
+            for _ in 0..6 {
+                l.push(ds::Char { char: 'f', font: 0 }.into());
             }
-            let bs = BreakSetup { kp: kp::Params::plain_tex_defaults(), widths: vec![pt(40)], indents: vec![pt(3), pt(0)], prefix: vec![], hyphenation: false };
+            let bs = BreakSetup { kp: kp::Params::plain_tex_defaults(), widths: vec![pt(30)], indents: vec![pt(3), pt(0)], prefix: vec![], hyphenation: false };
             list_case(rng, obs, Some((l, bs)));
         }
     }
